@@ -185,6 +185,23 @@ def generate(tier, rng):
         case = _one_case(rng, 'SequenceTokenTopKAccuracy', c=c, length=rng.choice([1, 2, 4]))
         case['args']['k'] = k
         yield case
+  # non-finite base statistics (a -inf logit at a real target: loss = +inf), alone and under PerDomainMetric:
+  # the other domains' slots must hold exact zeros, not inf * 0 = NaN
+  for i in range({'quick': 12, 'thorough': 60}.get(tier, 100)):
+    for metric in CE_METRICS:
+      case = _one_case(rng, metric, c=rng.choice([2, 3, 4]))
+      if metric == 'CrossEntropyLoss':
+        case['pred'] = [v if j != case['y'] else '-inf' for j, v in enumerate(_row(rng, len(case['pred']), 'small'))]
+      else:
+        masked = set(case['args']['masked']) if 'masked' in case['args'] else {0}
+        real = [j for j, t in enumerate(case['y']) if t not in masked and 0 <= t < len(case['pred'][0])]
+        if not real:
+          continue
+        case['pred'] = [_row(rng, len(r), 'small') for r in case['pred']]
+        for j in rng.sample(real, rng.randrange(1, len(real) + 1)):
+          case['pred'][j][case['y'][j]] = '-inf'
+      case['nonfinite'] = True
+      yield case if i % 3 == 0 else _with_domain(rng, case)
   for metric in ALL_METRICS:
     for i in range(per):
       case = _one_case(rng, metric)
@@ -422,6 +439,8 @@ def _corner(case):
     tags.append('per-position')
   if case['dom'] is not None:
     tags.append('per-domain')
+  if case.get('nonfinite'):
+    tags.append('nonfinite-base')
   return tags
 
 
@@ -447,8 +466,13 @@ def _cmp(case, obs, ref, prefix):
   approx = name in CE_METRICS
   for i, (x, r) in enumerate(zip(obs['accum'], acc)):
     fx = _frac(x)
+    if isinstance(r, float) and math.isinf(r):
+      if not (isinstance(x, float) and math.isinf(x) and (x > 0) == (r > 0)):
+        out.append((f'{tag}.{prefix}accum', f'accum[{i}] = {x!r}, reference {r!r}'))
+        break
+      continue
     if fx is None:
-      out.append((f'{tag}.{prefix}accum', f'accum[{i}] = {x!r} is not finite, reference {r}'))
+      out.append((f'{tag}.{prefix}accum.nonfinite', f'accum[{i}] = {x!r} is not finite, reference {r}'))
       break
     if approx:
       if abs(fx - _frac(r)) > Fraction(1, 100000) * (1 + abs(_frac(r))):
@@ -504,6 +528,8 @@ def _scores(rows):
 
 
 def encode(case, obs):
+  if case.get('nonfinite'):
+    return None   # the model has no non-finite statistic; these cases are judged by the oracle
   name, a = case['metric'], case['args']
   masked = _zl(a['masked'] if 'masked' in a else [0])
   if name in USES_PRED_ONE:
